@@ -80,6 +80,7 @@ func c04Wire(c *c04Case) string {
 type c04GroupInfo struct {
 	host, prefix string
 	creation     []int // middleware the group had when it was created (inherited + own)
+	current      []int // its middleware list now (creation + what later Use calls added)
 	own          []int // ids introduced by this group's own ops
 	ancestors    []int // group indices of the ancestors
 }
@@ -142,22 +143,25 @@ func c04Run(ci any) Result {
 			case "host":
 				g := e.Host(o.Name, mws(o.Mws)...)
 				groups = append(groups, g)
-				infos = append(infos, c04GroupInfo{host: o.Name, creation: append([]int{}, o.Mws...), own: append([]int{}, o.Mws...)})
+				infos = append(infos, c04GroupInfo{host: o.Name, creation: append([]int{}, o.Mws...), current: append([]int{}, o.Mws...), own: append([]int{}, o.Mws...)})
 			case "group":
 				if o.Parent < 0 {
 					groups = append(groups, e.Group(o.Prefix, mws(o.Mws)...))
-					infos = append(infos, c04GroupInfo{prefix: o.Prefix, creation: append([]int{}, o.Mws...), own: append([]int{}, o.Mws...)})
+					infos = append(infos, c04GroupInfo{prefix: o.Prefix, creation: append([]int{}, o.Mws...), current: append([]int{}, o.Mws...), own: append([]int{}, o.Mws...)})
 				} else {
 					p := infos[o.Parent]
 					groups = append(groups, groups[o.Parent].Group(o.Prefix, mws(o.Mws)...))
 					// the parent's list at this moment is inherited: recompute from the ops so far
+					// the sub-group inherits the parent's list as it is at this moment
 					infos = append(infos, c04GroupInfo{host: p.host, prefix: p.prefix + o.Prefix,
-						creation: append(append([]int{}, p.creation...), o.Mws...), own: append([]int{}, o.Mws...),
+						creation: append(append([]int{}, p.current...), o.Mws...),
+						current:  append(append([]int{}, p.current...), o.Mws...), own: append([]int{}, o.Mws...),
 						ancestors: append(append([]int{}, p.ancestors...), o.Parent)})
 				}
 			case "groupUse":
 				groups[o.G].Use(mws(o.Mws)...)
 				infos[o.G].own = append(infos[o.G].own, o.Mws...)
+				infos[o.G].current = append(infos[o.G].current, o.Mws...)
 			case "add":
 				hid := o.Hid
 				fails := o.Fails
@@ -358,7 +362,7 @@ func c04Run(ci any) Result {
 			// catch-all of a group that is not this group or one of its descendants
 			inside = true
 			for gj, h := range infos {
-				if gj == gi || len(h.creation)+len(h.own) == 0 {
+				if gj == gi || len(h.current) == 0 {
 					continue
 				}
 				desc := false
